@@ -117,7 +117,7 @@ class World:
     def expected_tree(self, state, vtext, initial=False, override=None):
         tree = {}
         for path in self.files:
-            tree[path] = self.expected_text(path, state, vtext, initial, override).encode("utf-8")
+            tree[path] = self.expected_text(path, state, vtext, initial, override).encode("utf-8", "surrogateescape")
             if path in self.links:
                 target = self.links[path]
                 tree[target] = tree[path]
@@ -154,7 +154,7 @@ class World:
                 continue
             want = self.expected_text(path, new_state, new_text)
             try:
-                have = data.decode("utf-8")
+                have = data.decode("utf-8", "surrogateescape" if self.project.get("invalid_utf8") else "strict")
             except UnicodeDecodeError:
                 ctx.violation("C04", "literal_changed", dict(facts, path=path), "file %r is no longer valid UTF-8" % path)
                 ok = False
